@@ -429,6 +429,7 @@ type result struct {
 	exit      int
 	dirDiff   string
 	output    string
+	corrupt   string
 	err       error
 }
 
@@ -564,8 +565,9 @@ func runCLI(c *tcase, bin, tmpRoot string) (r result) {
 	}
 	after, objsAfter, err := dump(devPath)
 	if err != nil {
-		r.err = fmt.Errorf("dump after: %w (output %s)", err, ob.String())
-		return
+		// the independent reader cannot read the file any more: the command damaged it
+		r.corrupt = err.Error()
+		after, objsAfter = "UNREADABLE", -1
 	}
 	bytesAfter := fileBytes(devPath)
 	dirAfter := snapDir(root)
@@ -677,8 +679,8 @@ func runNorm(c *tcase, tmpRoot string) (r result) {
 	}
 	after, objsAfter, err := dump(devPath)
 	if err != nil {
-		r.err = err
-		return
+		r.corrupt = err.Error()
+		after, objsAfter = "UNREADABLE", -1
 	}
 	r.same = before == after
 	r.empty = objsAfter == 0
@@ -706,6 +708,10 @@ func hclOnly(c *tcase) bool {
 
 func oracle(w *out.W, c *tcase, r *result) {
 	ctxt := fmt.Sprintf("start=%s cmd=%s latest=%d from=%s to=%s exit=%d outcome=%s", c.start, c.cmd, c.latest, c.from.kind, c.to.kind, r.exit, r.outcome)
+	if r.corrupt != "" {
+		w.Violation(c.id, "dev-unreadable-after", ctxt+": the dev database file cannot be read after the command: "+r.corrupt)
+		return
+	}
 	if r.startObjs > 0 {
 		// refused if not empty, and then completely untouched
 		if !r.same || !r.bytesSame {
@@ -791,7 +797,7 @@ func baseDir(m *int, ckpt bool) []mfile {
 		return []mfile{f1, f2}
 	}
 	ck := mfile{ckpt: true, stmts: ms(m, stmt{"ct", "t0", ""}, stmt{"ci", "i0", "t0"}, stmt{"cv", "v1", ""})}
-	f3 := mfile{stmts: ms(m, stmt{"ct", "t1", ""}, stmt{"in", "t0", ""})}
+	f3 := mfile{stmts: ms(m, stmt{"ct", "t1", ""}, stmt{"in", "t1", ""})}
 	return []mfile{f1, ck, f3}
 }
 
@@ -1150,6 +1156,7 @@ func main() {
 		oracle(w, c, r)
 	}
 	if bad > 0 {
+		w.Close()
 		os.Exit(1)
 	}
 }
